@@ -19,6 +19,8 @@ func init() {
 		Assumptions: []string{"fmutils.NestedMask.Filter keeps exactly the masked fields, Prune clears exactly the masked fields, proto.Merge copies set fields of src into dst, protoreflect Range stops when the callback returns false"},
 		Run:         runC05,
 		Controls: []Control{
+			{Name: "more-writable-replaces", File: "pkg/resource/opt.go", Old: "\t\trequest.moreWritableFields = fieldmaskpb.Union(request.moreWritableFields, writableFields)\n", New: "\t\trequest.moreWritableFields = writableFields\n", Expect: "R05.11"},
+			{Name: "absent-part-filtered-not-pruned", File: "pkg/masks/update.go", Old: "\t\t\t\tfieldMask.Prune(dstPr.Get(d).Message().Interface())\n", New: "\t\t\t\tfieldMask.Filter(dstPr.Get(d).Message().Interface())\n", Expect: "R05.5"},
 			{Name: "intersect-keeps-the-empty-side", File: "pkg/masks/update.go", Old: "\t\tcase len(am) == 0:\n\t\t\tres[name] = bm\n", New: "\t\tcase len(am) == 0:\n\t\t\tres[name] = am\n", Expect: "R05.9"},
 			{Name: "create-merges-into-the-written-message", File: "pkg/resource/collection.go", Old: "\t\t\tcreated = msg.ProtoReflect().New().Interface()\n", New: "\t\t\tcreated = msg\n", Expect: "R05.10"},
 			{Name: "first-write-merges-into-the-written-message", File: "pkg/resource/opt.go", Old: "\t\t\tdst = value.ProtoReflect().New().Interface()\n", New: "\t\t\tdst = value\n", Expect: "R05.10"},
@@ -63,6 +65,8 @@ func runC05(c *an.Ctx) {
 	c.Min("R05.8", 3)
 	r059intersect(c, "R05.9")
 	r0510(c, "R05.10")
+	r0511(c, "R05.11")
+	c.Min("R05.11", 2)
 	c.Min("R05.10", 2)
 	c.Min("R05.9", 2)
 	c.Min("R05.5", 2)
@@ -669,6 +673,23 @@ func r055(c *an.Ctx, rule string) {
 	}
 	c.Check(all, rule, name+"|the field iteration never stops early", cb.Pos(), "every return of the Range callback is true",
 		"the Range callback can return false: protoreflect stops iterating, so after the first cleared field the remaining masked fields that are unset in the written message keep their old values")
+	// what is named by the mask and missing in the written message is REMOVED from dst: the only mask operation applied
+	// to (a part of) dst here is Prune. Filter does the opposite - it keeps the named part at its old value and wipes the
+	// unnamed siblings
+	var filt ssa.Instruction
+	for _, f := range an.WithClosures(fn) {
+		an.Instrs(f, func(in ssa.Instruction) {
+			if an.IsCallTo(in, "(github.com/mennanov/fmutils.NestedMask).Filter", "github.com/mennanov/fmutils.Filter") {
+				filt = in
+			}
+		})
+	}
+	fpos := fn.Pos()
+	if filt != nil {
+		fpos = filt.Pos()
+	}
+	c.Check(filt == nil, rule, name+"|absent parts are pruned, never filtered", fpos, "no Filter call on dst",
+		"pruneEmpty applies NestedMask.Filter to a sub-message of dst: the part the mask names keeps its old value although the written message lacks it, and everything the mask does not name is wiped")
 	// clear exactly when the mask names the field and src does not have it
 	okClear := false
 	an.Instrs(cb, func(in ssa.Instruction) {
@@ -955,4 +976,58 @@ func changeFnBodies(fn *ssa.Function) []*ssa.Function {
 		}
 	}
 	return out
+}
+
+// r0511: options called WithMore… add to what the request already holds: what their closure stores into a field of the
+// request depends both on that field's current value and on the option's argument (Union(current, more)). Storing the
+// argument alone makes the last of several such options win, so fields named by the earlier ones are silently not
+// writable / not updated any more.
+func r0511(c *an.Ctx, rule string) {
+	n := 0
+	for _, fn := range c.Prog.FuncsIn(resPkg) {
+		if fn.Parent() != nil || !strings.HasPrefix(fn.Name(), "WithMore") || len(fn.Params) != 1 {
+			continue
+		}
+		prm := fn.Params[0]
+		for _, cl := range fn.AnonFuncs {
+			an.Instrs(cl, func(in ssa.Instruction) {
+				st, ok := in.(*ssa.Store)
+				if !ok {
+					return
+				}
+				_, _, fld, isF := an.FieldOf(st.Addr)
+				if !isF {
+					return
+				}
+				n++
+				c.SawFunc(an.FuncName(fn))
+				fromField, fromParam := false, false
+				srcs := an.Sources(st.Val)
+				for _, s0 := range append([]ssa.Value(nil), srcs...) {
+					// the operands of a combining call (fieldmaskpb.Union(current, more))
+					if call, isCall := s0.(*ssa.Call); isCall {
+						for _, a := range call.Call.Args {
+							srcs = append(srcs, an.Sources(a)...)
+						}
+					}
+				}
+				for _, s0 := range srcs {
+					if s0 == ssa.Value(prm) {
+						fromParam = true
+					}
+					if _, _, f2, ok2 := an.FieldOf(s0); ok2 && f2 == fld {
+						fromField = true
+					}
+					if u, isU := s0.(*ssa.UnOp); isU {
+						if _, _, f2, ok2 := an.FieldOf(u.X); ok2 && f2 == fld {
+							fromField = true
+						}
+					}
+				}
+				c.Check(fromField && fromParam, rule, an.FuncName(fn)+"|adds to what the request holds", st.Pos(), "stored value = f(current "+fld+", argument)",
+					"the option stores a value that does not depend on both the request's current "+fld+" and its argument: it replaces instead of adding, so only the last WithMore… option of a write counts")
+			})
+		}
+	}
+	c.Count("accumulating_option_stores", n)
 }
